@@ -138,6 +138,10 @@ impl Instrumented for RealProblem {
             // linear with an offset: negative objective values of both small and large magnitude, also -0.0 at the origin
             4 => x.iter().sum::<f64>() - 100.0,
             5 => -(x.iter().map(|v| v * v).sum::<f64>()),
+            // sphere on top of a large base cost: on a narrow domain neighbouring solutions differ in the last places of
+            // their objective values only
+            6 => 1000.0 + x.iter().map(|v| v * v).sum::<f64>(),
+            7 => 3.0e6 + x.iter().map(|v| v * v).sum::<f64>(),
             3 => {
                 // walled sphere: infeasible (+inf) outside the box of a quarter of the domain width around the origin
                 let r = 0.25 * (self.hi - self.lo);
